@@ -86,11 +86,12 @@ class Ctx:
                 violations.append((full, o))
         for (full, kf, o) in known_hits:
             print("KNOWN-FINDING: property=%s %s -- %s [%s]" % (prop, full, kf.get("what", ""), o.site))
-        os.makedirs(os.path.join(VERIF, "out"), exist_ok=True)
-        vpath = os.path.join(VERIF, "out", "%s.violations.json" % prop)
+        outdir = os.environ.get("MB2_OUT_DIR", os.path.join(VERIF, "out"))
+        os.makedirs(outdir, exist_ok=True)
+        vpath = os.path.join(outdir, "%s.violations.json" % prop)
         if violations:
             with open(vpath, "w") as fh:
-                json.dump([{"key": full, **o.as_json()} for (full, o) in violations], fh, indent=1)
+                json.dump([dict(o.as_json(), key=full) for (full, o) in violations], fh, indent=1)
             for (full, o) in violations:
                 print("  FAILED PREMISE %s\n     rule=%s site=%s\n     premise: %s\n     why: %s" %
                       (full, o.rule, o.site, o.desc, o.how))
@@ -136,8 +137,9 @@ class Ctx:
             "wall_s": round(time.time() - self.t0, 2),
             "violations": len(violations),
         }
-        os.makedirs(os.path.join(VERIF, "evidence"), exist_ok=True)
-        with open(os.path.join(VERIF, "evidence", "%s.json" % prop), "w") as fh:
+        evdir = os.environ.get("MB2_EVIDENCE_DIR", os.path.join(VERIF, "evidence"))
+        os.makedirs(evdir, exist_ok=True)
+        with open(os.path.join(evdir, "%s.json" % prop), "w") as fh:
             json.dump(ev, fh, indent=1, default=str)
         print("%s: %d premise instances, %d discharged, %d known findings, %d violations (%.1fs; cfgs %s; tree %s%s)" %
               (prop, n_ob, n_ok, len(known_hits), len(violations), time.time() - self.t0,
